@@ -37,7 +37,7 @@ REQUIRED = {"hist.observable_result": {"quick": 50000, "thorough": 2000000}, "hi
 REQUIRED_SEEN = {"cleanup_registered_from": ["before_all", "before_feature", "before_rule", "before_scenario", "before_step", "step", "after_step",
                                              "after_scenario", "before_tag"],
                  "cleanup_layer": ["current", "feature", "scenario", "testrun"],
-                 "cleanup_shape": ["same_function_other_arguments"], "generator_fixture_given_as": ["fx_partial", "fx_method"], "scoped_layer_name": ["has_upper_case", "lower_case"],
+                 "cleanup_shape": ["same_function_other_arguments"], "before_all_failed_after_registering": ["cleanups"], "generator_fixture_given_as": ["fx_partial", "fx_method"], "scoped_layer_name": ["has_upper_case", "lower_case"],
                  "scoped_block_left_by": ["normal", "RuntimeError", "KeyboardInterrupt", "SystemExit"]}
 EXHAUSTIVE = True
 EXHAUSTIVE_SCOPE = "all operation histories up to the length bound over the 16-operation alphabet"
@@ -495,6 +495,12 @@ def real_run(lab, mon, rng, case, sample=False):
             sc = getattr(context, "scenario", None)
             ename = sc.name if sc is not None else None
         ev.append(("hook", name, ename, tag))
+        if name in ("after_feature", "after_rule", "after_all", "before_feature", "before_rule"):
+            # context.active_outline has the life cycle "scenario outline" (docs/context_attributes): outside an outline -- also
+            # after an outline that was cut short by --stop -- it is None
+            ao = getattr(context, "active_outline", None)
+            mon.check("run.active_outline_ends_with_its_outline", ao is None,
+                      lambda: RB.witness(case, hook=name, element=ename, active_outline=repr(ao)))
         act(context, name, ename)
 
     def step_plugin(state, context, text):
@@ -502,8 +508,18 @@ def real_run(lab, mon, rng, case, sample=False):
         ev.append(("step", sc.name if sc is not None else None, text))
         act(context, "step", sc.name if sc is not None else None)
 
-    obs = lab.run(program, args=args, step_plugins=[step_plugin], hook_plugins=[hook_plugin])
+    obs = lab.run(program, args=args, step_plugins=[step_plugin], hook_plugins=[hook_plugin], hook_fault=case.get("hook_fault"))
     W = lambda **kw: RB.witness(case, **kw)
+    if case.get("hook_fault"):
+        # before_all raised AFTER it had set things up: the run is over, the test-run scope ends like any other -- every cleanup
+        # registered in it runs exactly once
+        regs = [e[1] for e in ev if e[0] == "register"]          # (registered from before_all -- and from after_all, which still runs)
+        ran = [e[1] for e in ev if e[0] == "cleanup"]
+        mon.check("run.testrun_cleanups_after_failing_before_all", obs.escaped is None and sorted(ran) == sorted(regs),
+                  lambda: W(registered_in_before_all=regs, cleanups_run=ran, escaped=repr(obs.escaped)))
+        if any(e[0] == "register" and e[3] == "before_all" for e in ev):
+            mon.seen("before_all_failed_after_registering", "cleanups")
+        return
     if obs.escaped is not None:
         mon.check("run.no_exception_escapes", False, lambda: W(escaped=repr(obs.escaped)))
         return
@@ -807,6 +823,8 @@ def run(spec, mon):
     for i in range(40 if tier == "quick" else 1800):
         gen = {"outcomes": outs, "p_nonpass": 0.2, "p_tag": 0.4, "max_features": 2, "p_stepless": 0.0, "p_empty_examples": 0.0}
         case = RB.gen_case(rng, gen=gen, p_stop=0.2, p_dry=0.0, p_noskipped=0.2)
+        if i % 6 == 5:
+            case = dict(case, hook_fault={"match": ["before_all", None, None], "exc": rng.choice(["Exception", "AssertionError"])})
         real_run(lab, mon, rng, case, sample=(i == 0 and shard == 0))
     execute_steps_runs(lab, mon, rng, 8 if tier == "quick" else 100)
     two_runs_on_one_runner(lab, mon, rng, 4 if tier == "quick" else 150)
